@@ -30,19 +30,19 @@ func init() {
 // time the bubble is quiescent ("input, then every spawned task to completion").
 type sesWorld struct {
 	*world
-	parkMu   sync.Mutex
-	parked   []chan struct{}
-	evs      []string // events of the current op
-	reqStart []int    // per request: number of writes seen
-	respLog  []string
-	cbSeq    int
-	reacts   map[string][]string // event name -> api calls to make from a listener ("send"/"close0"/"close1")
-	reactCount map[string]int
+	parkMu         sync.Mutex
+	parked         []chan struct{}
+	evs            []string // events of the current op
+	reqStart       []int    // per request: number of writes seen
+	respLog        []string
+	cbSeq          int
+	reacts         map[string][]string // event name -> api calls to make from a listener ("send"/"close0"/"close1")
+	reactCount     map[string]int
 	listenerParked []chan struct{}
-	hsReact    string // "flush" / "drain": a server-level listener drops the client of the session being handshaken, from inside that event
-	inReact  int
-	showCookie bool
-	jOf        map[string]string
+	hsReact        string // "flush" / "drain": a server-level listener drops the client of the session being handshaken, from inside that event
+	inReact        int
+	showCookie     bool
+	jOf            map[string]string
 	// windows: a goroutine reaching an armed yield point parks there until released
 	armed     map[string]int
 	winParked map[string][]chan struct{}
@@ -182,10 +182,11 @@ func ms(n string) time.Duration { return time.Duration(atoi(n)) * time.Milliseco
 
 // sesRun executes one session scenario. Every op answers with what became
 // observable until the system was quiescent again:
-//   events in order   E:<ms>:<who>:<name>[:args]
-//   responses         R:<req>:<status>:<content-type>:<content-encoding>:<bodyhex>   (in request order)
-//   frames per conn   F:<conn>:<kind>:<hex> / X:<conn>:<how it ended>                (in conn order)
-//   states            S:<s>:<readyState>:<transport>:<upgrading><upgraded>  G:<registry ords>:<count>
+//
+//	events in order   E:<ms>:<who>:<name>[:args]
+//	responses         R:<req>:<status>:<content-type>:<content-encoding>:<bodyhex>   (in request order)
+//	frames per conn   F:<conn>:<kind>:<hex> / X:<conn>:<how it ended>                (in conn order)
+//	states            S:<s>:<readyState>:<transport>:<upgrading><upgraded>  G:<registry ords>:<count>
 func sesRun(t *testing.T, lines []string) []string {
 	outs := make([]string, 0, len(lines))
 	bubble(t, func(t *testing.T) {
@@ -423,6 +424,15 @@ func sesRun(t *testing.T, lines []string) []string {
 					first = `0{"sid":"` + sess(f[2]).Id() + `"}`
 				}
 				w.wtDial(first)
+			case "wtbig": // ses wtbig <n>: a WebTransport session whose first frame is an open packet padded to n bytes
+				if len(f) > 3 && f[3] == "announced" {
+					// a text frame header in the 64-bit length form announcing n MiB, then a single byte of it
+					n := uint64(atoi(f[2])) << 20
+					hdr := []byte{127, byte(n >> 56), byte(n >> 48), byte(n >> 40), byte(n >> 32), byte(n >> 24), byte(n >> 16), byte(n >> 8), byte(n), '0'}
+					w.wtDialRaw("", hdr)
+				} else {
+					w.wtDial("0" + strings.Repeat(" ", atoi(f[2])-1))
+				}
 			case "frame": // ses frame <c> <t|b> <hex>
 				c := w.conns[atoi(f[2])]
 				if c.conn != nil || c.wtConn != nil {
